@@ -58,7 +58,7 @@ def universe(tier, seed):
 def run(tier):
     ck = Check('C06', tier)
     items = universe(tier, ck.seed)
-    kinds = list(SEM_KINDS) + ['id/memo-off']
+    kinds = list(SEM_KINDS) + ['id/memo-off', 'failfirst', 'failfirst/memo-off']
     jobs, jobkey, cases = Jobs(), [], []
     for it in items:
         rules = [r['name'] for r in it['g']['rules']]
@@ -71,7 +71,7 @@ def run(tier):
         for backend in ('model', 'generated'):
             cases.append(default_case(to_ebnf(it['g']), it['texts'], settings={'nameguard': False}, rules=rules, kinds=kinds,
                                       backend=backend, params=it.get('params'), label=it['label'], nomemo=it['nomemo'],
-                                      c02scope=c02scope))
+                                      c02scope=c02scope, reuse_kinds=['none', 'tag', 'failb', 'tagdefault', 'none', 'id']))
     r, spec = run_oracle(jobs)
     ck.add_tlc(r, 'PegSemBatch')
     # spec results per item: {act: [outcome per text]}
@@ -90,6 +90,12 @@ def run(tier):
             ck.violation({'kind': 'parse', 'inputs': {'grammar': c['ebnf'], 'backend': c['backend']}, 'expected': 'compiles',
                           'observed': im['compile']}, key='compile' + c['ebnf'] + c['backend'])
             continue
+        for m in im.get('reuse_mismatch') or []:
+            ck.violation({'kind': 'history', 'inputs': {'grammar': c['ebnf'], 'backend': 'generated', 'text': m['text'], 'semantics': m['semantics'],
+                                                        'history': 'one parser object parsed earlier with other semantics objects'},
+                          'expected': m['fresh_object'], 'observed': m['reused_object'],
+                          'why': 'the semantics object supplied to this call is not the one whose actions ran', 'spec': 'PegSem!Act'},
+                         key='reuse' + c['ebnf'])
         for t, res in enumerate(im['res']):
             text = c['texts'][t]
             ck.count(evaluations=len(res), traces=len(res))
@@ -149,6 +155,13 @@ def run(tier):
                     bad('spec ok (predicate never hit)', kind, s_)
                 elif s_['k'] == 'fail' and o['k'] != 'fail':
                     bad('spec: parse failure', kind, s_)
+            # a stateful action on @nomemo rules: every invocation is a real evaluation, so the outcome is that of the
+            # memoization-off run of the same action (fresh state)
+            if c['nomemo'] and 'failfirst' in res:
+                a, b = res['failfirst'], res['failfirst/memo-off']
+                if (a['k'], a.get('v')) != (b['k'], b.get('v')) or a['calls'] != b['calls']:
+                    bad(f"@nomemo rules with a stateful action: {a['k']}/{a['calls']} but every-invocation evaluation gives {b['k']}/{b['calls']}",
+                        'failfirst', b)
             # call counts: memoized rules may replay (<= memo-off), @nomemo rules are evaluated on every invocation
             on, off = res['id']['calls'], res['id/memo-off']['calls']
             if res['id']['k'] == res['id/memo-off']['k']:
